@@ -6,6 +6,7 @@ TARGETS = {
     "t_kernel": dict(variant="asan", srcs=["t_kernel.cc"], libs=RC),
     "t_queries": dict(variant="asan", srcs=["t_queries.cc"], libs=RC),
     "t_io": dict(variant="asan", srcs=["t_io.cc"], libs=RC),
+    "t_faults": dict(variant="fuzzrel", srcs=["t_faults.cc"], libs=RC),
     "t_handles": dict(variant="opt", srcs=["t_handles.cc"], libs="-lpthread"),
 }
 
@@ -217,6 +218,28 @@ CHECKS = {
         technique="rapidcheck generated meshes/properties + round-trip, independent reference decoder, metamorphic reference encoder",
         level_text="Round-trip, differential (independent codec) and metamorphic (all permitted encodings) testing of the binary format.",
         level_note="Index widths beyond 65537 entities are not generated; the ASCII format part is not covered by this check yet.",
+    ),
+    "C18": dict(
+        kind="rc_program", target="t_faults", level="fault_enumeration",
+        quick=dict(workers=16, max_success=12, max_size=60, len_scale=0.5, timeout=900),
+        thorough=dict(workers=16, max_success=150, max_size=100, len_scale=1.0, timeout=3600),
+        rule=("per generated valid OVMB file (written by the library from generated polyhedral / tetrahedral meshes with "
+              "persistent properties; sizes about 100 B - 20 KB) the faults are ENUMERATED: every truncation length "
+              "0..size-1 (sub-sampled above 6 KB) plus every chunk boundary; every byte of the file header, every chunk "
+              "header, sub-header and padding x {0,1,2,0x7f,0x80,0xfe,0xff,orig+1,orig-1}; every chunk dropped / "
+              "duplicated / exchanged with its successor, EOF chunk moved to the front; every input-stream failure "
+              "position (short read and exception) and output-stream failure positions while saving (every chunk and "
+              "payload start, file start/end, every 211th byte: each save costs a 100 MB buffer). A strict "
+              "reference decoder written from ovmb.ksy classifies each mutated file: rejected for a listed reason => "
+              "ovmb_read must not return Ok; still valid => must read to the decoded mesh; otherwise unjudged (counted). "
+              "evaluations = generated files; fault evaluations are in classes.fault_evaluations. non-trivial = a file "
+              "with >=1 cell and >=1 property that had faults injected inside / right after a TOPO or PROP chunk; "
+              "distinct = distinct program hash"),
+        assumptions=["input streams are seekable (the API sizes the file with seekg/tellg); the fault-injecting streambuf seeks correctly",
+                     "NDEBUG build (asserts off) with ASan/UBSan/_GLIBCXX_ASSERTIONS: debug-only asserts on corrupt input are not counted"],
+        technique="fault enumeration over generated files (truncation, byte substitution, chunk edits, stream failures) judged by an independent reference decoder",
+        level_text="Exhaustive enumeration of single faults per generated file; the verdict 'inconsistent' comes from an independent strict decoder, not from the library.",
+        level_note="Single faults only; multi-byte corruptions are left to the C07 fuzzers.",
     ),
 }
 
